@@ -1,17 +1,23 @@
 package main
 
 import (
+	"fmt"
 	"go/token"
 )
 
 // siteAsserts checks the contract's `assert before.<callee>: expr` clauses at a call to <callee> in the function
 // under contract. Names are the source-level variables in scope at the call.
-func (f *Frame) siteAsserts(callee string, pos token.Pos) {
+func (f *Frame) siteAsserts(callee string, pos token.Pos, args ...*Value) {
 	for _, cl := range f.fc.Asserts {
 		if cl.Label != "before."+callee {
 			continue
 		}
 		env := f.contractEnv(f.st, f.entry)
+		for k, a := range args { // the call's own arguments: arg0 is the receiver of a method call
+			if a != nil {
+				env.names[fmt.Sprintf("arg%d", k)] = a
+			}
+		}
 		b := f.cur
 		env.local = func(name string) *Value {
 			f.siteMode = true
